@@ -8,6 +8,7 @@ EnsT(a, ks) == [kind |-> "ens", id |-> 0, agg |-> a, ts |-> << >>, sel |-> 0, ki
 PipeT(ts, k) == [kind |-> "pipe", id |-> 0, agg |-> "", ts |-> ts, sel |-> 0, kids |-> <<k>>]
 MuxT(s, ks) == [kind |-> "mux", id |-> 0, agg |-> "", ts |-> << >>, sel |-> s, kids |-> ks]
 StackT(ks) == [kind |-> "stack", id |-> 0, agg |-> "", ts |-> << >>, sel |-> 0, kids |-> ks]
+OnlineT(ks) == [kind |-> "online", id |-> 0, agg |-> "", ts |-> << >>, sel |-> 0, kids |-> ks]
 Trees ==
     { EnsT(a, <<Leaf(1), Leaf(2)>>) : a \in {"mean", "median", "min", "max"} }
     \cup { EnsT(a, <<Leaf(1), Leaf(2), Leaf(3)>>) : a \in {"mean", "median", "min", "max"} }
@@ -18,6 +19,7 @@ Trees ==
     \cup { PipeT(<<1>>, EnsT(a, <<Leaf(1), Leaf(2)>>)) : a \in {"mean", "median"} }
     \cup { MuxT(2, <<Leaf(1), PipeT(<<2>>, Leaf(2))>>), PipeT(<<1>>, PipeT(<<2>>, Leaf(1))),
            StackT(<<Leaf(1), PipeT(<<1>>, Leaf(2))>>) }
+    \cup { OnlineT(<<Leaf(1), Leaf(2)>>), OnlineT(<<Leaf(1), Leaf(2), Leaf(3)>>), OnlineT(<<Leaf(1), PipeT(<<1>>, Leaf(2))>>) }
 Init == stage = "tree" /\ cfg = [tree |-> Leaf(1), n |-> 6, fh |-> <<1>>, ups |-> << >>, resel |-> 0]
 PickTree == /\ stage = "tree"
             /\ \E t \in Trees, n \in {6, 7}, f \in {<<1, 2>>, <<1, 3>>, <<2>>}, rs \in 0..3 :
@@ -36,6 +38,7 @@ Exp == ExpectedCompose(cfg)
 Inv_FinalOnlySeesFullChain == Done => FinalOnlySeesFullChain(cfg, Exp)
 Inv_MuxOnlySelected        == Done => MuxOnlySelected(cfg, Exp)
 Inv_StackHeldOut           == Done => StackHeldOut(cfg, Exp)
+Inv_OnlineScoresUnseen     == Done => OnlineScoresUnseen(cfg, Exp)
 \* inverse transforms are applied in reverse order of the transforms of the same pipeline
 Inv_InverseInReverseOrder ==
     (Done /\ cfg.tree.kind = "pipe" /\ cfg.tree.kids[1].kind = "leaf") =>
